@@ -41,6 +41,8 @@ TINY = [
     {"name": "close_from_other_thread", "pre": ["jobs.a"], "pubs": [[["jobs.a", 0], ["jobs.a", 1]]], "subs": ["jobs.a"], "closers": [0]},
     # a single-* pattern whose literal prefix and suffix overlap, and a channel that is exactly the overlap
     {"name": "star_pattern_overlap", "pre": ["jobs.cfg"], "pubs": [[["jobs.a.cfg", 0], ["jobs.cfg", 0]]], "subs": ["jobs.*.cfg"]},
+    # more than 32 channels in the table when a publisher to an existing channel races with a draining subscriber
+    {"name": "many_channels_existing", "pre": ["hot"] + [f"c.{i}" for i in range(34)], "pubs": [[["hot", 1]]], "subs": ["*"], "bound": 1, "cap": 1500},
     {"name": "2pub_two_new_channels", "pre": [], "pubs": [[["jobs.a", 0], ["jobs.b", 1]], [["jobs.b", 0], ["jobs.a", 1]]], "subs": []},
 ]
 
@@ -195,7 +197,7 @@ def plan(tier: str, seed: int, scale: float = 1.0) -> List[Dict[str, Any]]:
     for i, scn in enumerate(TINY):
         nthreads = len(scn["pubs"]) + len(scn["subs"]) + len(scn.get("closers", []))
         heavy = nthreads >= 3 or sum(len(m) for m in scn["pubs"]) >= 4
-        specs.append({"kind": "exhaustive", "scenario": i, "bound": bound - 1 if heavy else bound, "timeout": 3000})
+        specs.append({"kind": "exhaustive", "scenario": i, "bound": scn.get("bound", bound - 1 if heavy else bound), "timeout": 3000})
     nshards, n = (11, 600) if tier == "quick" else (27, 5000)
     specs += [{"kind": "random", "seed": seed * 8191 + i, "n": max(20, int(n * scale)), "timeout": 1500} for i in range(nshards)]
     return specs
@@ -204,7 +206,7 @@ def plan(tier: str, seed: int, scale: float = 1.0) -> List[Dict[str, Any]]:
 def run_shard(spec: Dict[str, Any]) -> Dict[str, Any]:
     col = Collector(max_hashes=3000000, hash_len=12)
     if spec["kind"] == "exhaustive":
-        enumerate_scenario(TINY[spec["scenario"]], spec["bound"], col)
+        enumerate_scenario(TINY[spec["scenario"]], spec["bound"], col, cap=TINY[spec["scenario"]].get("cap", 200000))
     else:
         run_campaign(c14_case(), lambda c: check_case(c, col), spec["n"], spec["seed"])
     res = col.result()
